@@ -213,6 +213,23 @@ impl ZarrChainStorage {
         Ok(())
     }
 
+    /// Store a placeholder for an event field that has no value on the current event
+    fn push_missing_param(&mut self, name: &str, is_warmup: bool) -> Result<()> {
+        let Some(buffer) = self.stats_buffers.get_mut(name) else {
+            panic!("Unknown param name: {}", name);
+        };
+        let array = if is_warmup {
+            &self.arrays.warmup_param_arrays[name]
+        } else {
+            &self.arrays.sample_param_arrays[name]
+        };
+        let width = array.shape().iter().skip(2).product::<u64>() as usize;
+        if let Some(chunk) = buffer.push_missing(width) {
+            store_zarr_chunk(array, chunk, self.chain)?;
+        }
+        Ok(())
+    }
+
     /// Store a draw value, writing to Zarr when buffer is full
     fn push_draw(&mut self, name: &str, value: Value, is_warmup: bool) -> Result<()> {
         if ["draw", "chain"].contains(&name) {
@@ -262,6 +279,26 @@ impl ChainStorage for ZarrChainStorage {
             self.last_sample_was_warmup = false;
         }
 
+        // An event field without a value on an event that did occur gets a placeholder, so
+        // that row k of every field of an event dimension belongs to event k.
+        let occurring: Vec<&str> = stats
+            .iter()
+            .filter(|(_, value)| value.is_some())
+            .filter_map(|(name, _)| self.event_dim_of_stat.get(*name).map(|dim| dim.as_str()))
+            .collect();
+        let missing: Vec<&str> = stats
+            .iter()
+            .filter(|(_, value)| value.is_none())
+            .filter(|(name, _)| {
+                self.event_dim_of_stat
+                    .get(*name)
+                    .is_some_and(|dim| occurring.contains(&dim.as_str()))
+            })
+            .map(|(name, _)| *name)
+            .collect();
+        for name in missing {
+            self.push_missing_param(name, info.tuning)?;
+        }
         for (name, value) in stats {
             if let Some(value) = value {
                 self.push_param(name, value, info.tuning)?;
